@@ -883,7 +883,10 @@ def model_quantize(model,
         }
         quantize_rnn(layer["config"]["backward_layer"],
                      backward_layer_quantizer_config)
-      layer["class_name"] = "QBidirectional"
+      # Only becomes a QBidirectional if the wrapped layer was converted;
+      # without a matching entry the layer is left as it was.
+      if layer_config["layer"]["class_name"].startswith("Q"):
+        layer["class_name"] = "QBidirectional"
 
     elif layer["class_name"] == "Activation":
       if prefer_qadaptiveactivation:  # Try to find QAdaptiveActivation first
